@@ -38,10 +38,23 @@ PROPS["C19"] = {
     "technique": "Kani full-domain harnesses against a range-defined RFC 4648 spec (contract-based deductive verification)",
     "design_ref": "DESIGN.md section 5, C19",
 }
+PROPS["C16"] = {
+    "units": {"kani": ["c16_serialization", "c16_pack"]},
+    "scope": "pure-Rust byte decoders: the automaton Serialize::deserialize family, pack/unpack of selector bytes, and (shared with C10) the canonical-field-encoding decoders",
+    "not_decided": ["VerifyingKey::read_from_cs, ZkStdLibArch::read (bincode), ZkStdLib::configure, ParamsKZG::read_custom, IR loading: generic / iterator / FFI code",
+                    "the out-of-range column-count and fixed-commitment-count panics described in the property text are NOT reachable by this family here",
+                    "G1/G2 point decoders (blst)"],
+    "trusted_base": [],
+    "assumptions": [],
+    "claim": "Proof (Kani, bounded only in buffer length) that the pure-Rust byte decoders are total and canonical: every Serialize::deserialize instance returns Ok/Err for every buffer, advances by exactly the encoded size and never allocates from an unchecked length; pack/unpack are exact inverses on their documented domain; field decoders accept exactly the canonical encodings (see C10). Decoding of keys, parameters, architecture descriptors and IR programs is NOT decided.",
+    "level_note": "Kani/CBMC; buffer items are bounded (length <= 24 bytes, content and length symbolic) and reported under `bounded`, never counted as proved; pack/unpack and the field decoders are full-domain. format! on error paths is stubbed.",
+    "technique": "Kani harness-form contracts on the real decoders (contract-based deductive verification; bounded stand-in for buffer length)",
+    "design_ref": "DESIGN.md section 5, C16",
+}
 
 # claimed in DESIGN.md, machinery not built yet in this revision
 PENDING = {}
-for _p in ("C05", "C06", "C10", "C11", "C16"):
+for _p in ("C05", "C06", "C10", "C11"):
     PENDING[_p] = "planned in DESIGN.md section 5 but the check is not built yet in this revision; not claimed until it is"
 
 NOT_APPLICABLE = {
